@@ -8,8 +8,10 @@
 (*            carry explicit deltas and their values, against the deltas   *)
 (*            given to the builder (required exact, optional within the    *)
 (*            tolerance under which they were declared optional)           *)
+(*  tuple_scalar : TupleVariation::compute_scalar (16.16) and its f32 twin *)
+(*            at probe locations against the exact tent scalar             *)
 (***************************************************************************)
-EXTENDS PackedRuns, Iup, TraceIO
+EXTENDS PackedRuns, Iup, Tent, TraceIO
 
 SeqToSet(q) == {q[i] : i \in DOMAIN q}
 
@@ -43,6 +45,17 @@ TGvar ==
      /\ OptionalOK(Ev.ys, Ev.dys, Ev.ends, keep, Ev.tol100)
   /\ Ev.peak_ok /\ Ev.readers_ok
 
+TTupleScalar ==
+  /\ IsEvent("tuple_scalar")
+  /\ LET region == [i \in DOMAIN Ev.region |-> <<Ev.region[i][1], Ev.region[i][2], Ev.region[i][3]>>] IN
+     \A k \in DOMAIN Ev.probes :
+       LET exact == RegionScalar(region, Ev.probes[k].coords, 1) IN
+       /\ ScalarClose(Ev.probes[k].scalar, exact, 2 * Len(region))
+       /\ ScalarClose(Ev.probes[k].scalar_f32, exact, 2 * Len(region))
+       \* exactly one at the peak and exactly zero outside the region
+       /\ (exact[1] = exact[2]) => Ev.probes[k].scalar = 65536
+       /\ (exact[1] = 0) => Ev.probes[k].scalar = 0
+
 TInit == l = 1
-TraceSpec == TInit /\ [][TPackedDeltas \/ TPackedPoints \/ TIup \/ TGvar]_l
+TraceSpec == TInit /\ [][TPackedDeltas \/ TPackedPoints \/ TIup \/ TGvar \/ TTupleScalar]_l
 =============================================================================
